@@ -324,8 +324,27 @@ func c11SteerGenerated(r *vRand, n int) []c11SteerJob {
 		if c.Max == 3 || s.Max == 3 || s.SkipHV || c.MTU != 0 || s.MTU != 0 {
 			continue
 		}
-		c.Store, s.Store = false, false
 		var o c11Opt
+		if r.chance(25) {
+			// sessions stored under one pair of EMS policies, resumed under another
+			comp := func() (int, int) {
+				for {
+					a, b := r.intn(3), r.intn(3)
+					if !(a == 1 && b == 2 || a == 2 && b == 1) {
+						return a, b
+					}
+				}
+			}
+			c.Store, s.Store = true, true
+			c0, s0 := c, s
+			c0.EMS, s0.EMS = comp()
+			c.EMS, s.EMS = comp()
+			o.SeedC, o.SeedS = &c0, &s0
+			jobs = append(jobs, c11SteerJob{gen: "steer:generated-ems-resume", c: c, s: s, resume: true, opt: o})
+
+			continue
+		}
+		c.Store, s.Store = false, false
 		switch r.intn(4) {
 		case 0:
 			if c.EMS == 2 {
